@@ -19,7 +19,9 @@
 (*   peers     members (sequence), all peers see the same membership       *)
 (*   followers peers in follower mode (not trusted by the others)          *)
 (*   norepin   cluster.disable_repinning on every peer                     *)
-(*   ms        peer -> Health as every survivor's monitor reports it       *)
+(*   ms        peer -> Health as every survivor's monitor reports it:      *)
+(*             v0..v2 numeric, nonnum = valid but not a number, bad =      *)
+(*             absent / invalid flag / expired (the monitor filters those) *)
 (*   rank      cid -> peers ordered by XOR distance, closest first (an     *)
 (*             arbitrary strict total order; only totality is used)        *)
 (***************************************************************************)
@@ -142,7 +144,10 @@ Remaining(w, e, f)  == {q \in Range(e.allocs) : q # f /\ HealthyP(w, q)}
 BelowMin(w, e, f)   == Holds(e, f) /\ e.rmin > 0 /\ Cardinality(Remaining(w, e, f)) < e.rmin
 AllocIn(w, e, f)    == [ms |-> w.ms, cur |-> e.allocs, bl |-> <<f>>, prio |-> <<>>, rmin |-> e.rmin, rmax |-> e.rmax,
                         strat |-> w.strat]
-CanRehome(w, e, f)  == ~(ReachRanked(AllocIn(w, e, f)) < e.rmin)       \* C03: a refusal is justified only then
+\* C03: a refusal is justified only when the healthy holders that remain plus the RANKABLE (numeric metric)
+\* candidates do not reach the minimum; a survivor with a valid but non-numeric metric is healthy as a holder
+\* but cannot be chosen. When the minimum cannot be reached the pin must stay untouched (allocation failure).
+CanRehome(w, e, f)  == ~(ReachRanked(AllocIn(w, e, f)) < e.rmin)
 SameOptions(n, e)   == /\ n.type = e.type /\ n.mode = e.mode /\ n.depth = e.depth /\ n.rmin = e.rmin /\ n.rmax = e.rmax
                        /\ n.name = e.name /\ n.exp = e.exp /\ PairSet(n.meta) = PairSet(e.meta)
                        /\ Range(n.orig) = Range(e.orig) /\ n.upd = e.upd /\ n.ref = e.ref
@@ -165,6 +170,7 @@ RehomeCidOK(w, ep, acts, psF, e) ==
         n == Ent(psF, e.cid)
         rehomed == /\ SameOptions(n, e)                                         \* RehomeGood: options preserved
                    /\ f \notin Range(n.allocs) /\ \A q \in Range(n.allocs) : HealthyP(w, q)
+                   /\ n.allocs # <<>> /\ Len(n.allocs) >= e.rmin                 \* never committed empty / below min
                    /\ Good(AllocIn(w, e, f), [ok |-> TRUE, allocs |-> n.allocs])  \*             allocation per C03
                    /\ Cardinality(Actors(acts, "pin", e.cid)) = 1               \* ExactlyOne
     IN
